@@ -81,6 +81,10 @@ Definition layout_len (l : layout) : N := fold_right (fun f acc => snd f + acc) 
    big-endian), `split_to(key_length)`, `split_to(get_value_len())` *)
 Inductive bread := RdU (w : nat) | RdKey | RdValue.
 
+(* what the encoder writes behind the header: `put_uN(x)` (big-endian, N/8 bytes),
+   `put(bytes)` / `put_slice(bytes)` *)
+Inductive bwrite := WrU (w : nat) | WrBytes.
+
 (* `let x = e;` evaluated where it stands *)
 Definition rbind {A B} (a : option A) (f : A -> option B) : option B :=
   match a with Some x => f x | None => None end.
